@@ -506,4 +506,43 @@ def r16_11(ctx):
         ctx.ok(f.where, "the traversed container is iterated in its own order", f.fq)
 
 
-RULES = [r16_1, r16_2, r16_3, r16_4, r16_5, r16_6, r16_7, r16_8, r16_9, r16_10, r16_11]
+# attributes of a container interpolated into its brace template, and what their repr() is
+_FIELD_REPR = {
+    "typecode": ("evaluable", "a one-character str"),
+    "maxlen": ("evaluable", "an int or None"),
+    "default_factory": ("callable", "a class or function: repr() gives <class 'list'> / <function f at 0x..>, which is not an expression"),
+}
+
+
+def r16_12(ctx):
+    ctx.rule("R16.12", "the text around the items is itself evaluable: a value interpolated into a brace template of _BRACES is written with repr() of something whose repr is an expression (array typecode). repr() of a callable is not: defaultdict(list, {1: [2]}) is printed as defaultdict(<class 'list'>, {1: [2]}), a SyntaxError when evaluated")
+    m, entries = _braces_entries(ctx)
+    n = 0
+    for tname, node, param, ret in entries:
+        if not (isinstance(ret, ast.Tuple) and len(ret.elts) == 3):
+            continue
+        where = f"{m.relpath}:{getattr(ret, 'lineno', getattr(node, 'lineno', 0))}"
+        seen = {}
+        for el in ret.elts:
+            for fv in ast.walk(el):
+                if not isinstance(fv, ast.FormattedValue):
+                    continue
+                n += 1
+                v = fv.value
+                if not (isinstance(v, ast.Attribute) and isinstance(v.value, ast.Name) and v.value.id == param):
+                    raise AnalysisError(f"_BRACES[{tname}] interpolates `{norm(v)}`; this rule reads attributes of the container only")
+                kind = _FIELD_REPR.get(v.attr)
+                if kind is None:
+                    raise AnalysisError(f"_BRACES[{tname}] interpolates `{norm(v)}`; the rule has no entry for what repr() of that attribute looks like")
+                seen[v.attr] = (kind, fv.conversion)
+        for attr, (kind, conv) in seen.items():
+            if kind[0] == "evaluable" and conv == ord("r"):
+                ctx.ok(where, f"{tname}: {attr!s} ({kind[1]}) written with repr()", "pretty:_BRACES")
+            elif kind[0] == "evaluable":
+                ctx.violation("pretty:_BRACES", f"{tname}: {{{param}.{attr}}}", where, f"_BRACES[{tname}] writes {attr} without repr(): a str typecode is printed bare and evaluates as a name")
+            else:
+                ctx.violation("pretty:_BRACES", f"{tname}: {{{param}.{attr}!r}}", where, f"_BRACES[{tname}] writes repr({attr}) into the output; {attr} is {kind[1]}. pretty_repr(defaultdict(list, {{1: [2]}})) == \"defaultdict(<class 'list'>, {{1: [2]}})\" does not evaluate (it mirrors the built-in repr of defaultdict)")
+    ctx.floor(n, 1, "values interpolated into brace templates")
+
+
+RULES = [r16_1, r16_2, r16_3, r16_4, r16_5, r16_6, r16_7, r16_8, r16_9, r16_10, r16_11, r16_12]
